@@ -22,6 +22,7 @@ type srule struct {
 	lhs    int
 	elems  []selem
 	arrows []arrow
+	marks  [][]int // state markers (genMarks over the elements), nil = none; only in rules without mid-rule actions
 }
 
 // one expansion of a source rule: which optional elements are present
@@ -48,7 +49,18 @@ func (r *srule) text(g *cfg, typeName func(int) string) string {
 		close[a.end] = append(close[a.end], k)
 	}
 	var sb strings.Builder
+	mark := func(i int) {
+		if r.marks != nil {
+			for _, m := range r.marks[i] {
+				fmt.Fprintf(&sb, ".m%d ", m)
+			}
+		}
+	}
+	endIn := r.marks != nil && len(r.marks[n+1]) > 0 && n > 0
 	for i := 0; i <= n; i++ {
+		if i == n && endIn {
+			mark(n)
+		}
 		for _, k := range close[i] {
 			fmt.Fprintf(&sb, "-> %s ) ", typeName(r.arrows[k].typ))
 		}
@@ -58,6 +70,7 @@ func (r *srule) text(g *cfg, typeName func(int) string) string {
 		for range open[i] {
 			sb.WriteString("( ")
 		}
+		mark(i)
 		e := r.elems[i]
 		switch e.kind {
 		case 2:
@@ -74,6 +87,9 @@ func (r *srule) text(g *cfg, typeName func(int) string) string {
 	}
 	if n == 0 {
 		sb.WriteString("%empty ")
+	}
+	if !endIn {
+		mark(n)
 	}
 	for _, k := range whole {
 		fmt.Fprintf(&sb, "-> %s ", typeName(r.arrows[k].typ))
@@ -148,6 +164,7 @@ func c02Sugar(rng *rand.Rand, n int, args []string) {
 		}
 		gr := &gram{src: base, fixws: rng.Intn(2) == 0}
 		nact := 0
+		withMarks := rng.Intn(3) != 0
 		for _, r := range base.rules {
 			sr := &srule{lhs: r.lhs}
 			nopt := 0
@@ -209,6 +226,16 @@ func c02Sugar(rng *rand.Rand, n int, args []string) {
 				if mandIn || mandAfter {
 					sr.arrows = append(sr.arrows, a)
 				}
+			}
+			// state markers (they occupy no stack slot and no report position); the compiler does not support them
+			// together with mid-rule actions
+			hasAct := false
+			for _, e := range sr.elems {
+				hasAct = hasAct || e.kind == 2
+			}
+			if !hasAct && withMarks {
+				ne := len(sr.elems)
+				sr.marks = genMarks(rng, ne, ne > 0 && sr.elems[ne-1].kind == 1)
 			}
 			gr.rules = append(gr.rules, sr)
 		}
@@ -315,12 +342,18 @@ func c02Sugar(rng *rand.Rand, n int, args []string) {
 		for _, x := range gr.exps {
 			lhs := tmap[gr.rules[x.rule].lhs]
 			for k, r := range gp.Rules {
-				if int(r.LHS) != lhs || len(r.RHS) != len(x.shape) {
+				var rhs []lalr.Sym // without state markers
+				for _, s := range r.RHS {
+					if !s.IsStateMarker() {
+						rhs = append(rhs, s)
+					}
+				}
+				if int(r.LHS) != lhs || len(rhs) != len(x.shape) {
 					continue
 				}
 				match := true
 				mids := make([]int, len(x.shape))
-				for j, s := range r.RHS {
+				for j, s := range rhs {
 					my, mine := back[int(s)]
 					switch {
 					case x.shape[j] == -1:
@@ -493,6 +526,11 @@ func c02Sugar(rng *rand.Rand, n int, args []string) {
 		in := sx.List(tmGrammarStr(p.g), tablesOf(gp.Tables), sx.List(evs...), sx.List(ars...), sx.Bool(gr.fixws), sx.List(ins...))
 		sx.Case("c02.events", in, sx.List(outs...))
 		sx.Stat(fmt.Sprintf("sugar_fixws_%v", gr.fixws), 1)
+		for _, r := range gp.Rules {
+			if k := len(r.RHS); k > 1 && r.RHS[k-1].IsStateMarker() {
+				sx.Stat("sugar_rules_with_marker_at_end", 1)
+			}
+		}
 	}
 	sx.Stat("sugar_grammars_tried", tried)
 }
